@@ -7,7 +7,11 @@ with extended-data type codes 0..5, each followed by the settling environment of
 all, deliver adjusts); whole transfers (send / settle rounds) compared with the model's `run_transfer`.
 Oracle: after settling, sender window + receiver's in_window_sofar == advertised window (no byte lost to the
 accounting) and the sender's window is open; a transfer of n bytes finishes within the predicted number of
-send calls; a multi-threaded blocking transfer completes.
+send calls; a multi-threaded blocking transfer completes; END-TO-END: a real Transport pair (in-memory loopback),
+open_session with explicit windows, the receiving application reading in several styles (large recv, small recv,
+select() on Channel.fileno() with small reads, stdout/stderr mix), the receiver half-closing its own direction
+before / during the transfer (its EOF really reaches the peer's Transport thread), the first channel re-used after
+the others.
 """
 import socket
 
@@ -155,7 +159,7 @@ def run(ctx):
     transfers(ctx, 30 * scale)
     c19.schedules(ctx, setups=(0,))
     c19.blocked_runs(ctx)
-    c19.loopback_runs(ctx, 6 * (3 if ctx.thorough else 1))
+    c19.loopback_runs(ctx, 8 * (3 if ctx.thorough else 1))
     c19.live_runs(ctx, 2 * (3 if ctx.thorough else 1))
 
 
